@@ -651,7 +651,14 @@ impl std::ops::Add<Interval> for Interval {
     type Output = Self;
     #[inline]
     fn add(self, rhs: Self) -> Self {
-        Interval::new(self.lower + rhs.lower, self.upper + rhs.upper)
+        let lower = self.lower + rhs.lower;
+        let upper = self.upper + rhs.upper;
+        if lower.is_nan() || upper.is_nan() {
+            // e.g. adding infinities of opposite sign
+            f32::NAN.into()
+        } else {
+            Interval::new(lower, upper)
+        }
     }
 }
 
@@ -730,7 +737,14 @@ impl std::ops::Sub<Interval> for Interval {
 
     #[inline]
     fn sub(self, rhs: Self) -> Self {
-        Interval::new(self.lower - rhs.upper, self.upper - rhs.lower)
+        let lower = self.lower - rhs.upper;
+        let upper = self.upper - rhs.lower;
+        if lower.is_nan() || upper.is_nan() {
+            // e.g. subtracting infinities of the same sign
+            f32::NAN.into()
+        } else {
+            Interval::new(lower, upper)
+        }
     }
 }
 
